@@ -38,6 +38,7 @@ fn main() {
   if quiet { std::panic::set_hook(Box::new(|_| {})); }
   // a panic of the harness itself (not of the system under test, which is caught per run) must
   // never look like a verdict: exit 2
+  engine::start_watchdog();
   let code = match std::panic::catch_unwind(|| match args[1].as_str() {
     "check" => cmd_check(&args[2..]),
     "replay" => cmd_replay(&args[2..]),
